@@ -374,6 +374,7 @@ func runC03(r *chk.Run) {
 		}
 	}
 	hr.finish()
+	RunScale(r, "big-transaction")
 	RunChecksumChange(r)
 	_ = resumePoints
 	r.Set("alphabet", alpha)
